@@ -638,7 +638,8 @@ theorem mkChainU_sound (hre : ∀ c, isReal c = true → re c = c) (fuel : Nat) 
 
 `ssum l s` is the signed sum of the actions of a list of (operator, negated?) pairs.  Proved: absorbing the summed scalings into
 the first diagonal with matching sampling dtype (with its sign), and the diagonal merge (inner and outer loop), preserve it.
-Not yet proved as a whole pass: un-nesting, grouping by (domain, target), block-diagonal merge, the final `-op` (see design.d). -/
+Then the whole pass (operands without block-diagonal operators): one (domain, target) group, the grouping (a partition), un-nesting
+with sign flips, and `SumOperator.make` including the final `-op`. -/
 
 /-- signed sum of the actions of a list of (operator, negated?) pairs in mode `s` -/
 noncomputable def ssum (l : List (Op K (X → K) × Bool)) (s : Nat) : Matrix X X K :=
@@ -775,6 +776,297 @@ theorem sumMergeDiags_sound (l : List (Op K (X → K) × Bool)) (s : Nat) (hs : 
       rcases hp with rfl | hp
       · exact hd (o, n) (by simp)
       · exact ih2 p hp
+
+
+/-! #### the whole pass: one group, grouping, un-nesting, `SumOperator.make` -/
+
+theorem sumMergeBlocks_noblock (fuel : Nat) (mk : List (Op K (X → K)) → List Bool → Op K (X → K))
+    (l : List (Op K (X → K) × Bool)) (h : ∀ p ∈ l, isBlock p.1 = false) : sumMergeBlocks S fuel mk l = l := by
+  fun_induction sumMergeBlocks S fuel mk l with
+  | case1 => rfl
+  | case2 o n rest ho r ih =>
+    have := h (o, n) (by simp)
+    simp [ho] at this
+  | case3 o n rest ho ih =>
+    rw [ih (fun p hp => h p (by simp [hp]))]
+
+theorem ssum_append (l1 l2 : List (Op K (X → K) × Bool)) (s : Nat) :
+    ssum isReal re blocks leaf (l1 ++ l2) s = ssum isReal re blocks leaf l1 s + ssum isReal re blocks leaf l2 s := by
+  simp [ssum, signedSum, List.map_append, List.sum_append]
+
+/-- the scalings of a group are summed with their signs; the other operators stay -/
+theorem sumScalings_split (l : List (Op K (X → K) × Bool)) (init : K) (s : Nat) (hs : s < 2) :
+    ssum isReal re blocks leaf l s + modeScalar init s • (1 : Matrix X X K) =
+      ssum isReal re blocks leaf (l.filter fun x => !isScaling x.1) s +
+        modeScalar ((l.filter fun x => isScaling x.1).foldl (sumScalStep S) init) s • (1 : Matrix X X K) := by
+  induction l generalizing init with
+  | nil => simp
+  | cons p ps ih =>
+    obtain ⟨o, n⟩ := p
+    by_cases hsc : isScaling o = true
+    · obtain ⟨d, c, dt, rfl⟩ : ∃ d c dt, o = Op.scaling d c dt := by
+        cases o <;> simp [isScaling] at hsc
+        exact ⟨_, _, _, rfl⟩
+      simp only [List.filter_cons, hsc, Bool.not_true, Bool.false_eq_true, if_false, if_true, List.foldl_cons]
+      have hstep : sumScalStep S init (Op.scaling d c dt, n) = init + (if n then -c else c) := by
+        simp only [sumScalStep, msem]
+      rw [hstep, ← ih, ssum_cons, den_scaling isReal re blocks leaf d c dt s (by omega), modeScalar_add2 _ _ s hs]
+      cases n
+      · simp only [Bool.false_eq_true, if_false, add_smul]; abel
+      · simp only [if_true, modeScalar_neg2 c s hs, add_smul, neg_smul]; abel
+    · have hsc' : isScaling o = false := by simpa using hsc
+      simp only [List.filter_cons, hsc', Bool.not_false, Bool.false_eq_true, if_false, if_true]
+      rw [ssum_cons, ssum_cons, add_assoc, ih init, add_assoc]
+
+/-- **one (domain, target) group of SumOperator.simplify preserves the signed sum** (no block-diagonal operators) -/
+theorem sumProcessGroup_sound (fuel : Nat) (mk : List (Op K (X → K)) → List Bool → Op K (X → K))
+    (opset : List (Op K (X → K) × Bool)) (s : Nat) (hs : s < 2) (hd : ∀ p ∈ opset, okC p.1 = true) :
+    ssum isReal re blocks leaf (sumProcessGroup S fuel mk opset) s = ssum isReal re blocks leaf opset s := by
+  have hs4 : s < 4 := by omega
+  simp only [sumProcessGroup]
+  have hsplit := sumScalings_split isReal re blocks leaf opset (msem isReal re blocks leaf).kzero s hs
+  have hz : modeScalar (msem isReal re blocks leaf).kzero s = 0 := modeScalar_zero2 s hs
+  rw [hz, zero_smul, add_zero] at hsplit
+  rw [hsplit]
+  generalize (opset.filter fun x => isScaling x.1).foldl (sumScalStep S) (msem isReal re blocks leaf).kzero = sc
+  generalize commonDtype ((opset.filter fun x => isScaling x.1).map (fun x => dtOf x.1)) = dtype
+  have hfilt : ∀ p ∈ opset.filter (fun x => !isScaling x.1), okC p.1 = true := fun p hp => hd p (List.mem_of_mem_filter hp)
+  generalize opset.filter (fun x => !isScaling x.1) = others at hfilt ⊢
+  have hk : ∀ f : K, (msem isReal re blocks leaf).keq f (msem isReal re blocks leaf).kzero = decide (f = 0) := fun _ => rfl
+  -- the list before the merges and its signed sum
+  have key : ∀ (l : List (Op K (X → K) × Bool)) (f : K), (∀ p ∈ l, okC p.1 = true) →
+      ssum isReal re blocks leaf (sumMergeBlocks S fuel mk (sumMergeDiags S
+        (if (!decide (f = 0) || l.isEmpty) = true then l ++ [(Op.scaling (firstDom opset) f dtype, false)] else l))) s =
+      ssum isReal re blocks leaf l s + modeScalar f s • (1 : Matrix X X K) := by
+    intro l f hl
+    have hok3 : ∀ p ∈ (if (!decide (f = 0) || l.isEmpty) = true then l ++ [(Op.scaling (firstDom opset) f dtype, false)] else l),
+        okC p.1 = true := by
+      intro p hp
+      split at hp
+      · simp only [List.mem_append, List.mem_singleton] at hp
+        rcases hp with hp | rfl
+        · exact hl p hp
+        · simp [okC, diagOK, isBlock]
+      · exact hl p hp
+    obtain ⟨hm1, hm2⟩ := sumMergeDiags_sound isReal re blocks leaf _ s hs hok3
+    rw [sumMergeBlocks_noblock isReal re blocks leaf fuel mk _ (fun p hp => by
+      have := hm2 p hp
+      simp only [okC, Bool.and_eq_true, Bool.not_eq_true'] at this
+      exact this.2), hm1]
+    by_cases hc : (!decide (f = 0) || l.isEmpty) = true
+    · simp only [hc, if_true]
+      rw [ssum_append, ssum_cons, ssum_nil, den_scaling isReal re blocks leaf _ f dtype s hs4]
+      simp
+    · have hc' : (!decide (f = 0) || l.isEmpty) = false := by simpa using hc
+      simp only [hc', Bool.false_eq_true, if_false]
+      have hf : f = 0 := by
+        simp only [Bool.or_eq_false_iff, Bool.not_eq_false', decide_eq_true_eq] at hc'
+        exact hc'.1
+      rw [hf, modeScalar_zero2 s hs, zero_smul, add_zero]
+  by_cases hf : sc = 0
+  · subst hf
+    simp only [hk, decide_true, Bool.not_true, Bool.false_eq_true, if_false]
+    have := key others 0 hfilt
+    simp only [decide_true, Bool.not_true] at this
+    exact this
+  · have hdf : decide (sc = 0) = false := by simpa using hf
+    simp only [hk, hdf, Bool.not_false, if_true]
+    obtain ⟨ha1, ha2⟩ := sumAbsorb_sound isReal re blocks leaf sc dtype others s hs hfilt
+    rw [key _ _ ha2, ha1]
+
+/-- the grouping keys: no duplicates, and every element's key occurs -/
+theorem groupKeys_spec (l : List (Op K (X → K) × Bool)) :
+    (groupKeys l).Nodup ∧ ∀ x ∈ l, domTgt x.1 ∈ groupKeys l := by
+  unfold groupKeys
+  have key : ∀ (l : List (Op K (X → K) × Bool)) (ks : List (Nat × Nat)), ks.Nodup →
+      (l.foldl (fun ks x => if ks.contains (domTgt x.1) then ks else ks ++ [domTgt x.1]) ks).Nodup ∧
+      (∀ k ∈ ks, k ∈ l.foldl (fun ks x => if ks.contains (domTgt x.1) then ks else ks ++ [domTgt x.1]) ks) ∧
+      (∀ x ∈ l, domTgt x.1 ∈ l.foldl (fun ks x => if ks.contains (domTgt x.1) then ks else ks ++ [domTgt x.1]) ks) := by
+    intro l
+    induction l with
+    | nil => intro ks h; exact ⟨h, fun k hk => hk, by simp⟩
+    | cons x xs ih =>
+      intro ks h
+      simp only [List.foldl_cons]
+      by_cases hc : ks.contains (domTgt x.1) = true
+      · simp only [hc, if_true]
+        obtain ⟨h1, h2, h3⟩ := ih ks h
+        refine ⟨h1, h2, ?_⟩
+        intro y hy
+        simp only [List.mem_cons] at hy
+        rcases hy with rfl | hy
+        · exact h2 _ (by simpa using hc)
+        · exact h3 y hy
+      · have hc' : ks.contains (domTgt x.1) = false := by simpa using hc
+        simp only [hc', Bool.false_eq_true, if_false]
+        have hnd : (ks ++ [domTgt x.1]).Nodup := by
+          rw [List.nodup_append]
+          refine ⟨h, by simp, ?_⟩
+          intro a ha b hb
+          simp only [List.mem_singleton] at hb
+          subst hb
+          intro hab; subst hab
+          simp at hc'
+          exact hc' ha
+        obtain ⟨h1, h2, h3⟩ := ih _ hnd
+        refine ⟨h1, fun k hk => h2 k (by simp [hk]), ?_⟩
+        intro y hy
+        simp only [List.mem_cons] at hy
+        rcases hy with rfl | hy
+        · exact h2 _ (by simp)
+        · exact h3 y hy
+  obtain ⟨h1, _, h3⟩ := key l [] List.nodup_nil
+  exact ⟨h1, h3⟩
+
+theorem sum_indicator {α : Type} [DecidableEq α] (keys : List α) (hn : keys.Nodup) (a : α) (ha : a ∈ keys)
+    (t : Matrix X X K) : (keys.map fun k => if a = k then t else 0).sum = t := by
+  induction keys with
+  | nil => simp at ha
+  | cons k ks ih =>
+    simp only [List.nodup_cons] at hn
+    simp only [List.map_cons, List.sum_cons]
+    by_cases hak : a = k
+    · subst hak
+      have : (ks.map fun k => if a = k then t else 0).sum = 0 := by
+        apply List.sum_eq_zero
+        intro x hx
+        simp only [List.mem_map] at hx
+        obtain ⟨k', hk', rfl⟩ := hx
+        have : a ≠ k' := fun h => hn.1 (h ▸ hk')
+        simp [this]
+      rw [this]; simp
+    · have hmem : a ∈ ks := by
+        simp only [List.mem_cons] at ha
+        rcases ha with h | h
+        · exact absurd h hak
+        · exact h
+      rw [ih hn.2 hmem]; simp [hak]
+
+/-- grouping by (domain, target) is a partition: the group sums add up to the total -/
+theorem ssum_groups (l : List (Op K (X → K) × Bool)) (keys : List (Nat × Nat)) (hn : keys.Nodup)
+    (hc : ∀ x ∈ l, domTgt x.1 ∈ keys) (s : Nat) :
+    (keys.map fun k => ssum isReal re blocks leaf (l.filter fun x => domTgt x.1 == k) s).sum = ssum isReal re blocks leaf l s := by
+  induction l with
+  | nil => simp [ssum_nil]
+  | cons x xs ih =>
+    obtain ⟨o, n⟩ := x
+    have hc' : ∀ x ∈ xs, domTgt x.1 ∈ keys := fun y hy => hc y (by simp [hy])
+    have hx : domTgt o ∈ keys := hc (o, n) (by simp)
+    rw [ssum_cons, ← ih hc', ← sum_indicator keys hn (domTgt o) hx
+      (if n then - den S o (1 <<< s) else den S o (1 <<< s)), ← List.sum_map_add]
+    congr 1
+    apply List.map_congr_left
+    intro k _
+    by_cases hk : domTgt o = k
+    · subst hk
+      simp [List.filter_cons, ssum_cons]
+    · have hk' : (domTgt o == k) = false := by simpa using hk
+      simp only [List.filter_cons, hk', hk, Bool.false_eq_true, if_false, zero_add]
+
+theorem ssum_flatMap {α : Type} (keys : List α) (g : α → List (Op K (X → K) × Bool)) (s : Nat) :
+    ssum isReal re blocks leaf (keys.flatMap g) s = (keys.map fun k => ssum isReal re blocks leaf (g k) s).sum := by
+  induction keys with
+  | nil => simp [ssum_nil]
+  | cons k ks ih => simp only [List.flatMap_cons, List.map_cons, List.sum_cons, ← ih]; exact ssum_append isReal re blocks leaf _ _ s
+
+
+theorem ssum_zip_not (l : List (Op K (X → K))) (ns : List Bool) (s : Nat) :
+    ssum isReal re blocks leaf (l.zip (ns.map (!·))) s = - ssum isReal re blocks leaf (l.zip ns) s := by
+  induction l generalizing ns with
+  | nil => simp [ssum_nil]
+  | cons o os ih =>
+    cases ns with
+    | nil => simp [ssum_nil]
+    | cons n ns =>
+      simp only [List.map_cons, List.zip_cons_cons, ssum_cons, ih]
+      cases n <;> simp <;> abel
+
+theorem den_sum_ssum (l : List (Op K (X → K))) (ns : List Bool) (s : Nat) :
+    den S (Op.sum l ns) (1 <<< s) = ssum isReal re blocks leaf (l.zip ns) s := by
+  by_cases h : l = [] ∨ ns = []
+  · rcases h with rfl | rfl
+    · simp [den, sumR, ssum_nil, msem]
+    · cases l <;> simp [den, sumR, ssum_nil, msem]
+  · have h1 : l ≠ [] := fun h' => h (Or.inl h')
+    have h2 : ns ≠ [] := fun h' => h (Or.inr h')
+    rw [den_sum isReal re blocks leaf l ns _ h1 h2]
+    unfold ssum
+    congr 1
+    rw [List.zip_map_left]
+    exact List.map_congr_left (fun p _ => rfl)
+
+/-- un-nesting sums (a subtracted nested sum flips the signs of its summands) keeps the signed sum -/
+theorem sumFlatten_sound (ops : List (Op K (X → K))) (neg : List Bool) (s : Nat) :
+    ssum isReal re blocks leaf (sumFlatten ops neg) s = ssum isReal re blocks leaf (ops.zip neg) s := by
+  unfold sumFlatten
+  induction ops.zip neg with
+  | nil => rfl
+  | cons x xs ih =>
+    obtain ⟨o, n⟩ := x
+    simp only [List.flatMap_cons]
+    rw [ssum_append, ih, ssum_cons]
+    congr 1
+    cases o with
+    | sum l ns =>
+      dsimp only
+      rw [den_sum_ssum]
+      cases n
+      · simp
+      · simp only [if_true]; exact ssum_zip_not isReal re blocks leaf l ns s
+    | _ => simp [ssum_cons, ssum_nil]
+
+/-- **SumOperator.simplify preserves the signed sum** in the two modes a sum advertises (no block-diagonal operators) -/
+theorem sumSimplify_sound (fuel : Nat) (mk : List (Op K (X → K)) → List Bool → Op K (X → K))
+    (ops : List (Op K (X → K))) (neg : List Bool) (s : Nat) (hs : s < 2)
+    (hd : ∀ p ∈ sumFlatten ops neg, okC p.1 = true) :
+    ssum isReal re blocks leaf (sumSimplify S fuel mk ops neg) s = ssum isReal re blocks leaf (ops.zip neg) s := by
+  simp only [sumSimplify]
+  rw [ssum_flatMap, ← sumFlatten_sound isReal re blocks leaf ops neg s]
+  obtain ⟨hn, hc⟩ := groupKeys_spec (sumFlatten ops neg)
+  rw [← ssum_groups isReal re blocks leaf (sumFlatten ops neg) (groupKeys (sumFlatten ops neg)) hn hc s]
+  congr 1
+  apply List.map_congr_left
+  intro k _
+  exact sumProcessGroup_sound isReal re blocks leaf fuel mk _ s hs (fun p hp => hd p (List.mem_of_mem_filter hp))
+
+/-- **SumOperator.make preserves the action** (TIMES, ADJOINT_TIMES): the result acts as the signed sum of the operands; when a
+    single negated operator remains, `-op` is built through `ChainOperator.make` (hypotheses of `mkChainU_sound` on that operator) -/
+theorem mkSumU_sound (hre : ∀ c, isReal c = true → re c = c) (fuel : Nat) (ops : List (Op K (X → K))) (neg : List Bool)
+    (s : Nat) (hs : s < 2) (hd : ∀ p ∈ sumFlatten ops neg, okC p.1 = true)
+    (hsingle : ∀ o, sumSimplify S fuel (mkSumU S fuel) ops neg = [(o, true)] →
+      (∀ l, o = Op.chain l → l ≠ []) ∧ (∀ x ∈ chainFlatten [o], okC x = true)) :
+    den S (mkSumU S (fuel + 1) ops neg) (1 <<< s) = ssum isReal re blocks leaf (ops.zip neg) s := by
+  have hs4 : s < 4 := by omega
+  rw [← sumSimplify_sound isReal re blocks leaf fuel (mkSumU S fuel) ops neg s hs hd, mkSumU]
+  split
+  · rename_i o n heq
+    rw [heq, ssum_cons, ssum_nil, add_zero]
+    cases n
+    · simp
+    · simp only [if_true]
+      obtain ⟨h1, h2⟩ := hsingle o heq
+      unfold negU
+      have hF : FUEL = 63 + 1 := rfl
+      rw [hF, mkChainU_sound isReal re blocks leaf hre 63 _ s hs4 (by simp)
+        (by intro x hx l hl; simp only [List.mem_cons, List.not_mem_nil, or_false] at hx; rcases hx with rfl | rfl
+            · cases hl
+            · exact h1 l hl)
+        (by intro x hx
+            simp only [chainFlatten, List.flatMap_cons, List.flatMap_nil, List.append_nil, List.mem_append] at hx h2
+            rcases hx with hx | hx
+            · simp only [List.mem_singleton] at hx; subst hx; simp [okC, diagOK, isBlock]
+            · exact h2 x hx)]
+      simp only [List.map_cons, List.map_nil, mprod_cons, mprod_nil]
+      rw [den_scaling isReal re blocks leaf _ _ 0 s hs4]
+      have hm : modeScalar ((msem isReal re blocks leaf).kneg (msem isReal re blocks leaf).kone) s = -1 := by
+        show modeScalar (-(1 : K)) s = -1
+        rw [modeScalar_neg2 1 s hs, modeScalar_one s hs4]
+      rw [hm]
+      cases revOf s <;> simp
+  · rename_i l hl
+    have hz : ∀ l : List (Op K (X → K) × Bool), (l.map (·.1)).zip (l.map (·.2)) = l := by
+      intro l; induction l <;> simp [*]
+    rw [den_sum_ssum, hz]
 
 
 /-- non-vacuity of the hypotheses of `mkChainU_sound`: a diagonal with pending adjoint, a nested chain with a scaling, a leaf -/
